@@ -93,9 +93,13 @@ class _Logger(logging.Logger):  # use pkt.dtm for the log record timestamp
         )
 
         if hasattr(rv, "_dtm"):  # extra is a Packet's __dict__: its timestamp is _dtm
-            ct = rv._dtm.timestamp()
-            rv.created = ct
-            rv.msecs = (ct - int(ct)) * 1000
+            try:
+                ct = rv._dtm.timestamp()
+            except (OverflowError, ValueError, OSError):  # e.g. dated 0001-01-01
+                pass  # keep the wall-clock time: logging must not raise
+            else:
+                rv.created = ct
+                rv.msecs = (ct - int(ct)) * 1000
 
         if rv.msg:
             rv.msg = f" < {rv.msg}"
@@ -230,7 +234,10 @@ def set_logger_timesource(dtm_now: Callable[..., dt]) -> None:
     def record_factory(*args: Any, **kwargs: Any) -> logging.LogRecord:
         record = old_factory(*args, **kwargs)
 
-        ct = dtm_now().timestamp()
+        try:
+            ct = dtm_now().timestamp()
+        except (OverflowError, ValueError, OSError):  # e.g. last pkt dated 0001-01-01
+            return record  # keep the wall-clock time: logging must not raise
         record.created = ct
         record.msecs = (ct - int(ct)) * 1000
 
